@@ -215,16 +215,18 @@ func scenarios(thorough bool) []*scenario {
 	}
 	if !thorough {
 		return []*scenario{
-			{name: "namespace", pre: []string{"INBOX"}, universe: allNames, alphabet: alphabetNamespace(false), depth: 3},
-			{name: "messages-from-empty", pre: []string{"INBOX", "A"}, universe: allNames[:3], alphabet: alphabetMessages(false), depth: 2},
-			{name: "messages-two-sessions-on-INBOX(2 msgs)", pre: []string{"INBOX", "A"}, universe: allNames[:3], seed: seedMsgs, alphabet: alphabetMessages(true), depth: 2},
-			{name: "messages-two-sessions-on-INBOX(3 msgs)", pre: []string{"INBOX", "A"}, universe: allNames[:3], seed: seed3, alphabet: alphabetMessages(false), depth: 2},
+			{name: "namespace", pre: []string{"INBOX"}, universe: allNames, alphabet: alphabetNamespace(true), depth: 4},
+			{name: "messages-from-empty", pre: []string{"INBOX", "A"}, universe: allNames[:3], alphabet: alphabetMessages(false), depth: 3},
+			{name: "messages-two-sessions-on-INBOX(2 msgs), full alphabet", pre: []string{"INBOX", "A"}, universe: allNames[:3], seed: seedMsgs, alphabet: alphabetMessages(true), depth: 2},
+			{name: "messages-two-sessions-on-INBOX(2 msgs)", pre: []string{"INBOX", "A"}, universe: allNames[:3], seed: seedMsgs, alphabet: alphabetMessages(false), depth: 3},
+			{name: "messages-two-sessions-on-INBOX(3 msgs), full alphabet", pre: []string{"INBOX", "A"}, universe: allNames[:3], seed: seed3, alphabet: alphabetMessages(true), depth: 2},
 		}
 	}
 	return []*scenario{
-		{name: "namespace", pre: []string{"INBOX"}, universe: allNames, alphabet: alphabetNamespace(true), depth: 4},
-		{name: "messages-from-empty", pre: []string{"INBOX", "A"}, universe: allNames[:3], alphabet: alphabetMessages(false), depth: 3},
-		{name: "messages-two-sessions-on-INBOX(2 msgs)", pre: []string{"INBOX", "A"}, universe: allNames[:3], seed: seedMsgs, alphabet: alphabetMessages(true), depth: 3},
-		{name: "messages-two-sessions-on-INBOX(3 msgs)", pre: []string{"INBOX", "A"}, universe: allNames[:3], seed: seed3, alphabet: alphabetMessages(false), depth: 3},
+		{name: "namespace", pre: []string{"INBOX"}, universe: allNames, alphabet: alphabetNamespace(true), depth: 5},
+		{name: "messages-from-empty", pre: []string{"INBOX", "A"}, universe: allNames[:3], alphabet: alphabetMessages(false), depth: 5},
+		{name: "messages-two-sessions-on-INBOX(2 msgs), full alphabet", pre: []string{"INBOX", "A"}, universe: allNames[:3], seed: seedMsgs, alphabet: alphabetMessages(true), depth: 3},
+		{name: "messages-two-sessions-on-INBOX(2 msgs)", pre: []string{"INBOX", "A"}, universe: allNames[:3], seed: seedMsgs, alphabet: alphabetMessages(false), depth: 4},
+		{name: "messages-two-sessions-on-INBOX(3 msgs)", pre: []string{"INBOX", "A"}, universe: allNames[:3], seed: seed3, alphabet: alphabetMessages(false), depth: 4},
 	}
 }
